@@ -1157,11 +1157,17 @@ where
             .await
             .map(move |value| {
                 // The type of the new value will be `a` instead of `IO a`
-                let actual = resolve::remove_aliases_cow(&vm.get_env(), &mut NullInterner, &typ);
+                // (`forall a . IO (Option a)` becomes `forall a . Option a`)
+                let (params, inner) = match &*typ {
+                    Type::Forall(params, inner) => (params.to_vec(), inner),
+                    _ => (Vec::new(), &typ),
+                };
+                let actual = resolve::remove_aliases_cow(&vm.get_env(), &mut NullInterner, inner);
                 let actual = match **actual {
                     Type::App(_, ref arg) => arg[0].clone(),
                     _ => ice!("ICE: Expected IO type found: `{}`", actual),
                 };
+                let actual = Type::forall(params, actual);
                 ExecuteValue {
                     id,
                     expr,
